@@ -565,7 +565,10 @@ func parseEMLAttachmentEmbed(contentDisposition []string, multiPart *multipart.P
 	cdType, optional := parseMultiPartHeader(contentDisposition[0])
 	filename := "generic.attachment"
 	if name, ok := optional["filename"]; ok {
-		filename = name[1 : len(name)-1]
+		filename = name
+		if len(name) >= 2 && name[0] == '"' && name[len(name)-1] == '"' {
+			filename = name[1 : len(name)-1]
+		}
 	}
 
 	var dataReader io.Reader
